@@ -55,6 +55,14 @@ def eager_ok(prefix, max_pdu):
     return not (i >= 0 and prefix[i]['a'] == 'user' and len(prefix[i].get('msg', ())) > 1)
 
 
+def racing_multifrag(prefix):
+    """Would a back-to-back network action now race a multi-fragment P-DATA request of the local user?"""
+    i = len(prefix) - 1
+    while i >= 0 and H.is_eager(prefix[i]):
+        i -= 1
+    return i >= 0 and prefix[i]['a'] == 'user' and len(prefix[i].get('msg', ())) > 1
+
+
 def peer_progress(model):
     """0 = no message in progress from the peer, 1 = command started, 2 = command done (data pending)."""
     r = model.reasm
@@ -269,7 +277,10 @@ def walk(draw, max_len=30):
                 # the peer pauses somewhere inside this PDU; the rest comes later (or never)
                 size = len(refpdu.enc_pdu(act['spec']))
                 act = {'a': 'head', 'spec': act['spec'], 'cut': draw(st.integers(1, size - 1))}
-            if draw(st.integers(0, 2)) == 0:
+            # (bytes that are no event yet - part of a PDU - racing a multi-fragment send let one more fragment out per
+            #  read; the model's fixed interleaving does not cover that, C03's race part does)
+            partial = act['a'] in ('head', 'tail') or getattr(m, 'half', None) is not None
+            if draw(st.integers(0, 2)) == 0 and not (partial and racing_multifrag(hist)):
                 act['eager'] = True
                 if act['a'] in ('pdu', 'head') and draw(st.integers(0, 1)) == 0:
                     act['glue'] = True          # ... in the very same segment as what came before
